@@ -329,6 +329,14 @@ EXTRA5 = {
     'C15': "Round 9: ProcFields.tla renames onto names the schema already has (swaps, cycles, shifts).",
     'C16': "Round 9: sources() with named resources that collide with existing names / with the names it generates.",
 }
+EXTRA6 = {
+    'C03': "Round 10: resources that arrive with a dialect of their own (header-less, escape character, other delimiter).",
+    'C07': "Round 10: Ejson.tla zones without a name (AwareBy: the pinned decoder told zone-aware values by the written NAME - refuted, fix dada92e); resumed rows carry the same fields as the first run's rows.",
+    'C15': "Round 10: find_replace over several resources / one specification handed to two steps.",
+    'C16': "Round 10: duplicate of a resource of typed values (sub-second times, zone-aware datetimes, decimals, nested containers) is an exact copy.",
+}
+for _k, _v in EXTRA6.items():
+    EXTRA5[_k] = (EXTRA5.get(_k, '') + ' ' + _v).strip()
 for _k, _v in EXTRA5.items():
     EXTRA4[_k] = (EXTRA4.get(_k, '') + ' ' + _v).strip()
 for _k, _v in EXTRA4.items():
